@@ -118,6 +118,7 @@ type Machine struct {
 	ptrOrigin  map[*Value][]Value
 	known      map[int32]bool
 	timersCreated int
+	tlsReads, tlsWrites int
 	initSteps  int64
 }
 
